@@ -8,6 +8,7 @@ import (
 	"io/fs"
 	"os"
 	"path/filepath"
+	"runtime/debug"
 	"strings"
 
 	"github.com/ddddddO/gtree"
@@ -194,10 +195,25 @@ func runCase(m *Model, c Case) []Diff {
 }
 
 // runCaseR also returns the real code's canonical result.
-func runCaseR(m *Model, c Case) ([]Diff, string) {
+func runCaseR(m *Model, c Case) (d []Diff, r string) {
 	orig := c.Exts
 	c.Exts = ownExts(orig)
-	d, r := runCaseR1(m, c)
+	// a panic inside the library on this case (in the calling goroutine) is a failing input, not a crash of the
+	// harness: every operation returns, for every input. The stack names the frames of /repo it went through.
+	defer func() {
+		if p := recover(); p != nil {
+			st := string(debug.Stack())
+			if !strings.Contains(st, "github.com/ddddddO/gtree.") && !strings.Contains(st, "\t/repo/") {
+				panic(p) // not in the library: a defect of the harness, which must not be reported as a violation
+			}
+			if len(st) > 3000 {
+				st = st[:3000]
+			}
+			d = []Diff{{What: "the library panicked on this case", Real: fmt.Sprint(p) + "\n" + st, Model: "the call returns (a value or an error) on every input"}}
+			r = "panic"
+		}
+	}()
+	d, r = runCaseR1(m, c)
 	return append(d, extsDiff(orig, c.Exts)...), r
 }
 
